@@ -543,6 +543,61 @@ func (x *VC) structuralObligations(fn *ssa.Function, c *Contract) {
 			o.Note = "recover() stops a panic only when called directly by the deferred function"
 		}
 	}
+	for _, ab := range c.CallsAfter {
+		isCallOf := func(ins ssa.Instruction, name string) bool {
+			var cc *ssa.CallCommon
+			switch ci := ins.(type) {
+			case *ssa.Call:
+				cc = &ci.Call
+			case *ssa.Defer:
+				cc = &ci.Call
+			case *ssa.Go:
+				cc = &ci.Call
+			default:
+				return false
+			}
+			if cc.IsInvoke() {
+				return cc.Method.Name() == name
+			}
+			if callee := cc.StaticCallee(); callee != nil {
+				return callee.Name() == name || strings.HasSuffix(callee.String(), name)
+			}
+			return false
+		}
+		ok, sawB := true, false
+		for _, b := range fn.Blocks {
+			for i, ins := range b.Instrs {
+				if !isCallOf(ins, ab[1]) {
+					continue
+				}
+				sawB = true
+				found := false
+				for _, prev := range b.Instrs[:i] {
+					if isCallOf(prev, ab[0]) {
+						found = true
+					}
+				}
+				for _, d := range fn.Blocks {
+					if found || d == b || !d.Dominates(b) {
+						continue
+					}
+					for _, di := range d.Instrs {
+						if isCallOf(di, ab[0]) {
+							found = true
+						}
+					}
+				}
+				if !found {
+					ok = false
+				}
+			}
+		}
+		cond := "false"
+		if ok && sawB {
+			cond = "true"
+		}
+		x.addObl("calls-after", ab[1]+" only after "+ab[0], "", "true", cond)
+	}
 	for _, want := range c.CallsInEntry {
 		cond := "false"
 		if len(fn.Blocks) > 0 {
@@ -640,5 +695,5 @@ func (x *VC) structuralObligations(fn *ssa.Function, c *Contract) {
 }
 
 func (c *Contract) hasStructural() bool {
-	return c.Recovers || len(c.Defers) > 0 || len(c.ClosureFirst) > 0 || c.AlwaysSends || len(c.CallsInEntry) > 0
+	return c.Recovers || len(c.Defers) > 0 || len(c.ClosureFirst) > 0 || c.AlwaysSends || len(c.CallsInEntry) > 0 || len(c.CallsAfter) > 0
 }
